@@ -440,6 +440,12 @@ def rule_chunking(rep, tier):
             for (a, n) in shapes:
                 cases.append((js, cname, layout, "case_aead_inplace", (alg, a, n), "in-place %s ad %d message %d" % (alg, a, n),
                               "ascon%s_aead_decrypt_block" % alg))
+            # a state that is started again for the next packet behaves like a fresh one (sender and receiver sessions)
+            for (a, n) in ([(1, 3)] if tier == "quick" else [(0, 1), (1, 3), (5, 17)]):
+                cases.append((js, cname, layout, "case_aead_session_encrypt", (alg, a, n),
+                              "%s sender session, first packet ad %d message %d" % (alg, a, n), "ascon%s_aead_start" % alg))
+                cases.append((js, cname, layout, "case_aead_decrypt_session", (alg, a, n),
+                              "%s receiver session, first packet ad %d message %d" % (alg, a, n), "ascon%s_aead_start" % alg))
     for d in modecheck.run_cases("C07", rid, tier, cases, None):
         rep.merge(d)
     rep.floor_discharged(rid, int(0.9 * len(cases)))
